@@ -171,13 +171,15 @@ def check_case(case, workdir=None):
 
 
 def case_strategy():
+    # every spelling of a mixed requires side is forced in turn (stratified, not left to chance)
+    forms = [gen_cfg.model_and_spec(force=['many_ports'], want_mixed=True, req_form=f)
+             for f in ('both', 'sts+rem', 'rem+mts')]
     return st.one_of(
-        gen_cfg.model_and_spec(force=['many_ports'], want_mixed=True),
-        gen_cfg.model_and_spec(force=['many_ports', 'inout_mix'], want_mixed=True),
+        *forms,
+        gen_cfg.model_and_spec(force=['many_ports', 'inout_mix'], want_mixed=True, req_form='sts+rem'),
         gen_cfg.model_and_spec(want_mc=True, force=['many_ports'], want_mixed=True),
         gen_cfg.model_and_spec(force=['out_many_formals', 'shared_itf', 'many_ports']),
         gen_cfg.model_and_spec(force=['ref_extern', 'out_many_formals', 'many_ports'], want_mixed=True),
-        gen_cfg.model_and_spec(force=['many_ports'], want_mixed=True, explicit=True),
         gen_cfg.model_and_spec())
 
 
